@@ -18,6 +18,7 @@ const (
 	KInt
 	KStr
 	KBV
+	KBlob // uninterpreted sort for opaque byte strings (keys, bodies, xattr blobs)
 )
 
 type Sort struct {
@@ -29,6 +30,7 @@ var (
 	SBool = Sort{K: KBool}
 	SInt  = Sort{K: KInt}
 	SStr  = Sort{K: KStr}
+	SBlob = Sort{K: KBlob}
 )
 
 func SBV(w int) Sort { return Sort{K: KBV, W: w} }
@@ -41,6 +43,8 @@ func (s Sort) String() string {
 		return "Int"
 	case KStr:
 		return "String"
+	case KBlob:
+		return "Blob"
 	default:
 		return fmt.Sprintf("(_ BitVec %d)", s.W)
 	}
@@ -181,6 +185,30 @@ func tOr(xs ...*Term) *Term {
 
 func tImplies(a, b *Term) *Term { return tOr(tNot(a), b) }
 
+// toBlob embeds a String term into the opaque Blob sort (injective; the solver
+// layer adds the inverse-function axiom for every application).
+func toBlob(t *Term) *Term {
+	if t.S == SBlob {
+		return t
+	}
+	if t.S != SStr {
+		panic("toBlob of " + t.S.String())
+	}
+	if t.Op == "sOfB" {
+		return t.Args[0]
+	}
+	return mkOp("bOfS", SBlob, t)
+}
+
+func isStrLike(s Sort) bool { return s.K == KStr || s.K == KBlob }
+
+func unifyStr(a, b *Term) (*Term, *Term) {
+	if a.S != b.S && isStrLike(a.S) && isStrLike(b.S) {
+		return toBlob(a), toBlob(b)
+	}
+	return a, b
+}
+
 func tIte(c, a, b *Term) *Term {
 	if c.IsConst() {
 		if c.B {
@@ -188,6 +216,7 @@ func tIte(c, a, b *Term) *Term {
 		}
 		return b
 	}
+	a, b = unifyStr(a, b)
 	if sameTerm(a, b) {
 		return a
 	}
@@ -220,6 +249,10 @@ func tIte(c, a, b *Term) *Term {
 }
 
 func tEq(a, b *Term) *Term {
+	a, b = unifyStr(a, b)
+	if a.Op == "bOfS" && b.Op == "bOfS" {
+		return tEq(a.Args[0], b.Args[0]) // injectivity
+	}
 	if a.S != b.S {
 		panic(fmt.Sprintf("eq sort mismatch %v %v: %s / %s", a.S, b.S, a, b))
 	}
@@ -228,6 +261,9 @@ func tEq(a, b *Term) *Term {
 	}
 	if sameTerm(a, b) {
 		return tTrue
+	}
+	if a.Op == "bvcount" && b.IsConst() && a.U == 0 && b.U == 0 {
+		return tNot(tOr(a.Args...))
 	}
 	if a.S == SBool {
 		if a.IsConst() {
@@ -335,6 +371,18 @@ func tBVBin(op string, a, b *Term) *Term {
 }
 
 func tBVCmp(op string, a, b *Term) *Term {
+	if a.Op == "bvcount" && b.IsConst() && a.U == 0 && b.U == 0 {
+		switch op {
+		case "bvsgt", "bvugt":
+			return tOr(a.Args...)
+		case "bvsle", "bvule":
+			return tNot(tOr(a.Args...))
+		case "bvsge", "bvuge":
+			return tTrue
+		case "bvslt", "bvult":
+			return tFalse
+		}
+	}
 	if a.S != b.S {
 		panic(fmt.Sprintf("bv cmp sort mismatch %s: %v %v", op, a.S, b.S))
 	}
@@ -370,6 +418,27 @@ func tBVCmp(op string, a, b *Term) *Term {
 		}
 	}
 	return mkOp(op, SBool, a, b)
+}
+
+// tCount: number of true conditions as a 64-bit value (RowsAffected).
+func tCount(conds []*Term) *Term {
+	n := uint64(0)
+	var sym []*Term
+	for _, c := range conds {
+		if c.IsConst() {
+			if c.B {
+				n++
+			}
+			continue
+		}
+		sym = append(sym, c)
+	}
+	if len(sym) == 0 {
+		return mkBV(64, n)
+	}
+	t := mkOp("bvcount", SBV(64), sym...)
+	t.U = n
+	return t
 }
 
 func tBVNot(a *Term) *Term {
@@ -437,6 +506,24 @@ func tIntBin(op string, a, b *Term) *Term {
 }
 
 func tIntCmp(op string, a, b *Term) *Term {
+	// comparisons of ite-of-constants / lengths with constants: distribute
+	if a.Op == "ite" && b.IsConst() {
+		return tIte(a.Args[0], tIntCmp(op, a.Args[1], b), tIntCmp(op, a.Args[2], b))
+	}
+	if (a.Op == "str.len" || a.Op == "blen") && b.IsConst() {
+		z := b.I.Sign() == 0
+		one := b.I.Cmp(big.NewInt(1)) == 0
+		switch {
+		case op == ">" && z, op == ">=" && one:
+			return tNe(a.Args[0], mkStr(""))
+		case op == "<=" && z, op == "<" && one:
+			return tEq(a.Args[0], mkStr(""))
+		case op == ">=" && z:
+			return tTrue
+		case op == "<" && z:
+			return tFalse
+		}
+	}
 	if a.IsConst() && b.IsConst() {
 		c := a.I.Cmp(b.I)
 		switch op {
@@ -489,10 +576,45 @@ func tStrLen(a *Term) *Term {
 	if a.IsConst() {
 		return mkInt(int64(len(a.Str)))
 	}
+	if a.Op == "bOfS" {
+		return tStrLen(a.Args[0])
+	}
+	if a.Op == "bcat" {
+		return tIntBin("+", tStrLen(a.Args[0]), tStrLen(a.Args[1]))
+	}
+	if a.S == SBlob && a.Op != "ite" {
+		return mkOp("blen", SInt, a)
+	}
+	if a.Op == "ite" {
+		return tIte(a.Args[0], tStrLen(a.Args[1]), tStrLen(a.Args[2]))
+	}
+	if a.Op == "str.++" {
+		return tIntBin("+", tStrLen(a.Args[0]), tStrLen(a.Args[1]))
+	}
 	return mkOp("str.len", SInt, a)
 }
 
+func isEmptyStr(t *Term) bool {
+	if t.IsConst() && t.S == SStr && t.Str == "" {
+		return true
+	}
+	return t.Op == "bOfS" && isEmptyStr(t.Args[0])
+}
+
 func tStrConcat(a, b *Term) *Term {
+	if a.S == SBlob || b.S == SBlob {
+		if isEmptyStr(a) {
+			return toBlob(b)
+		}
+		if isEmptyStr(b) {
+			return toBlob(a)
+		}
+		a, b = toBlob(a), toBlob(b)
+		if a.Op == "bOfS" && b.Op == "bOfS" {
+			return toBlob(tStrConcat(a.Args[0], b.Args[0]))
+		}
+		return mkOp("bcat", SBlob, a, b)
+	}
 	if a.IsConst() && b.IsConst() {
 		return mkStr(a.Str + b.Str)
 	}
@@ -507,6 +629,21 @@ func tStrConcat(a, b *Term) *Term {
 
 // byte at index i (Int) as BV8. Strings hold bytes 0..255 as code points.
 func tStrByteAt(a, i *Term) *Term {
+	if a.Op == "bOfS" {
+		return tStrByteAt(a.Args[0], i)
+	}
+	if a.S == SBlob {
+		if a.Op == "ite" {
+			return tIte(a.Args[0], tStrByteAt(a.Args[1], i), tStrByteAt(a.Args[2], i))
+		}
+		if i.IsConst() && i.I.Sign() == 0 {
+			return mkOp("bfirst", SBV(8), a)
+		}
+		if i.Op == "-" && i.Args[1].IsConst() && i.Args[1].I.Cmp(big.NewInt(1)) == 0 && sameTerm(i.Args[0], tStrLen(a)) {
+			return mkOp("blast", SBV(8), a)
+		}
+		return mkOp("bat", SBV(8), a, i)
+	}
 	if a.IsConst() && i.IsConst() {
 		idx := int(i.I.Int64())
 		if idx >= 0 && idx < len(a.Str) {
@@ -518,13 +655,27 @@ func tStrByteAt(a, i *Term) *Term {
 }
 
 func tStrContains(a, b *Term) *Term {
+	if a.Op == "bOfS" {
+		a = a.Args[0]
+	}
+	if a.S == SBlob {
+		panic(unsupportedOp{"str.contains on opaque blob"})
+	}
 	if a.IsConst() && b.IsConst() {
 		return mkBool(strings.Contains(a.Str, b.Str))
 	}
 	return mkOp("str.contains", SBool, a, b)
 }
 
+type unsupportedOp struct{ msg string }
+
 func tStrPrefixOf(p, a *Term) *Term {
+	if a.Op == "bOfS" {
+		a = a.Args[0]
+	}
+	if a.S == SBlob {
+		panic(unsupportedOp{"str.prefixof on opaque blob"})
+	}
 	if a.IsConst() && p.IsConst() {
 		return mkBool(strings.HasPrefix(a.Str, p.Str))
 	}
@@ -586,6 +737,9 @@ func (t *Term) String() string {
 	if s, ok := t.leafString(); ok {
 		return s
 	}
+	if t.Op == "bvcount" {
+		return expandCount(t).String()
+	}
 	var b strings.Builder
 	b.WriteByte('(')
 	if t.Op == "uf" {
@@ -627,4 +781,12 @@ func collectSyms(t *Term, vars map[string]Sort, ufs map[string]ufSig, seen map[*
 type ufSig struct {
 	args []Sort
 	ret  Sort
+}
+
+func expandCount(t *Term) *Term {
+	acc := mkBV(64, t.U)
+	for _, c := range t.Args {
+		acc = mkOp("bvadd", SBV(64), acc, mkOp("ite", SBV(64), c, mkBV(64, 1), mkBV(64, 0)))
+	}
+	return acc
 }
